@@ -400,7 +400,7 @@ void System__expand(struct System* self, struct Constraint* cnst, struct Variabl
     __CPROVER_ensures(vf_exc != 0 || g_reuse || NEW_SLOT(consumption_weight) == consumption_weight)
     /*@ expand_new_element_gets_the_weight */
 #ifdef VF_C18_WEIGHT_CLAUSE
-    /* proved for a disabled variable only (harness expand_disabled defines VF_C18_WEIGHT_CLAUSE). UNDECIDED with an
+    /* proved for a disabled variable only (thorough-tier harness expand_disabled_weight defines VF_C18_WEIGHT_CLAUSE). UNDECIDED with an
      * enabled variable (expand_reuse): the solver has to prove the floating-point adder of the body equal to the one of
      * this clause through differently muxed inputs together with the counting clauses (no answer after 17 CPU minutes);
      * the concurrency clauses below do not need it (they read the new weight from the post-state on both sides) */
